@@ -1100,9 +1100,15 @@ def c10_state(sim, ctx=None) -> List[Tuple[str, tuple, str]]:
                 b = target
                 st = sim.stations.get(b.station_id) if b.station_id else None
                 if st is not None and not _grants(st, v):
-                    ctx.cov["c10:charging_base_station_of_other_fleet(not judged)"] += 1
+                    ctx.cov["c10:charging_base_station_of_other_fleet"] += 1
         if not _grants(target, v):
             out.append(("no_access", (n, "vehicle_without_fleet" if not v.membership.memberships else "other_fleet"), f"vehicle {vid} {sorted(v.membership.memberships)} is {n} with {target.id} {sorted(target.membership.memberships)}"))
+        elif n == "ChargingBase" and target.station_id:
+            # charging through a base draws from the base's STATION: "charging at ... a station ... whose membership does not grant it access"
+            st = sim.stations.get(target.station_id)
+            if st is not None and not _grants(st, v):
+                out.append(("no_access", ("ChargingBase", "station_of_the_base", "vehicle_without_fleet" if not v.membership.memberships else "other_fleet"),
+                            f"vehicle {vid} {sorted(v.membership.memberships)} is charging at base {target.id} on a plug of station {st.id} {sorted(st.membership.memberships)}, which does not grant it access"))
     return out
 
 
